@@ -5,6 +5,8 @@ import Mathlib.Tactic.Ring
 import Mathlib.Tactic.FieldSimp
 import Mathlib.Tactic.Linarith
 import Mathlib.Tactic.LinearCombination
+import Mathlib.Analysis.Calculus.Deriv.Inverse
+import Mathlib.Topology.MetricSpace.Lipschitz
 
 /-!
 Elliptic Keplerian motion solves the two-body equation of motion (orbital plane, perifocal axes).
@@ -12,6 +14,7 @@ If the eccentric anomaly `E(t)` satisfies Kepler's equation with a mean anomaly 
 rate `n`, then `(x, y) = (a (cos E − e), a √(1−e²) sin E)` satisfies `r̈ = −µ r / |r|³` with `µ = n² a³`.
 -/
 noncomputable section
+set_option linter.unusedVariables false
 namespace BeyondVerif.TwoBody
 open Real
 
@@ -20,6 +23,63 @@ variable {a e n M0 : ℝ} {E : ℝ → ℝ}
 theorem denom_pos (he0 : 0 ≤ e) (he : e < 1) (u : ℝ) : 0 < 1 - e * cos u := by
   have := Real.cos_le_one u
   nlinarith [Real.neg_one_le_cos u]
+
+/-! ### a solution of Kepler's equation along `M₀ + n t` is automatically differentiable -/
+
+theorem kepler_unique (he0 : 0 ≤ e) (he : e < 1) {u v : ℝ} (h : u - e * sin u = v - e * sin v) : u = v := by
+  have h1 : u - v = e * (sin u - sin v) := by linarith
+  have h2 := Real.abs_sin_sub_sin_le u v
+  have h3 : |u - v| = e * |sin u - sin v| := by rw [h1, abs_mul, abs_of_nonneg he0]
+  have h4 : |u - v| ≤ e * |u - v| := h3.le.trans (mul_le_mul_of_nonneg_left h2 he0)
+  have h5 : |u - v| ≤ 0 := by nlinarith [abs_nonneg (u - v)]
+  have := abs_nonpos_iff.mp h5
+  linarith
+
+theorem solution_lipschitz (he0 : 0 ≤ e) (he : e < 1) (hE : ∀ t, E t - e * sin (E t) = M0 + n * t) (s t : ℝ) :
+    |E s - E t| ≤ |n| / (1 - e) * |s - t| := by
+  have h1 : E s - E t = n * (s - t) + e * (sin (E s) - sin (E t)) := by linarith [hE s, hE t]
+  have h2 := Real.abs_sin_sub_sin_le (E s) (E t)
+  have h3 : |E s - E t| ≤ |n| * |s - t| + e * |E s - E t| := by
+    calc |E s - E t| = |n * (s - t) + e * (sin (E s) - sin (E t))| := by rw [h1]
+      _ ≤ |n * (s - t)| + |e * (sin (E s) - sin (E t))| := abs_add_le _ _
+      _ = |n| * |s - t| + e * |sin (E s) - sin (E t)| := by rw [abs_mul, abs_mul, abs_of_nonneg he0]
+      _ ≤ |n| * |s - t| + e * |E s - E t| := by gcongr
+  have h4 : 0 < 1 - e := by linarith
+  rw [div_mul_eq_mul_div, le_div_iff₀ h4]
+  nlinarith
+
+theorem solution_continuous (he0 : 0 ≤ e) (he : e < 1) (hE : ∀ t, E t - e * sin (E t) = M0 + n * t) :
+    Continuous E :=
+  (LipschitzWith.of_dist_le' (K := |n| / (1 - e)) (fun s t => by
+    simpa [Real.dist_eq] using solution_lipschitz he0 he hE s t)).continuous
+
+theorem solution_differentiable (he0 : 0 ≤ e) (he : e < 1) (hE : ∀ t, E t - e * sin (E t) = M0 + n * t) :
+    Differentiable ℝ E := by
+  by_cases hn : n = 0
+  · -- constant
+    have : E = fun _ => E 0 := by
+      funext t; apply kepler_unique he0 he; rw [hE t, hE 0, hn]; ring
+    rw [this]; exact differentiable_const _
+  · intro t
+    -- φ y := E ((y − M₀)/n) is a continuous right inverse of g u := u − e sin u
+    have hcont := solution_continuous he0 he hE
+    let φ : ℝ → ℝ := fun y => E ((y - M0) / n)
+    have hφc : ContinuousAt φ (M0 + n * t) := by
+      have : Continuous φ := hcont.comp (by fun_prop)
+      exact this.continuousAt
+    have hφt : φ (M0 + n * t) = E t := by simp [φ, hn]
+    have hg : HasDerivAt (fun u => u - e * sin u) (1 - e * cos (E t)) (φ (M0 + n * t)) := by
+      rw [hφt]; exact (hasDerivAt_id (E t)).sub ((Real.hasDerivAt_sin (E t)).const_mul e)
+    have hinv : ∀ᶠ y in nhds (M0 + n * t), (fun u => u - e * sin u) (φ y) = y := by
+      refine Filter.Eventually.of_forall (fun y => ?_)
+      simp only [φ]; rw [hE]; field_simp; ring
+    have hφ := HasDerivAt.of_local_left_inverse hφc hg (denom_pos he0 he (E t)).ne' hinv
+    have haff : HasDerivAt (fun t => M0 + n * t) n t := by
+      simpa using ((hasDerivAt_id t).const_mul n).const_add M0
+    have hcomp := hφ.comp t haff
+    have : E = φ ∘ fun t => M0 + n * t := by
+      funext s; simp [φ, hn]
+    rw [this]; exact hcomp.differentiableAt
 
 /-- the rate of the eccentric anomaly: `Ė = n / (1 − e cos E)` -/
 theorem hasDerivAt_E (he0 : 0 ≤ e) (he : e < 1) (hE : ∀ t, E t - e * sin (E t) = M0 + n * t)
